@@ -325,6 +325,10 @@ class C07Phases(Monitor):
             self.known = False
 
     def _quiescent(self, s, where):
+        if self.known and any(not c for i in s.player_indices if s.statuses[i] for c in s.hole_cards[i]):
+            # a player still in the hand holds an unknown card (it need not have been dealt as `??`: a
+            # partial show can leave one): outside "hands reaching a showdown are known"
+            self.known = False
         if not self.deck_ok or not self.known:
             return
         ph = active_phases(s)
